@@ -123,15 +123,17 @@ def pool_cycle_deadlock(lab):
 
 
 def stale_notice(lab, H, id, upto_seq, before_ts=None):
-    """A wait() notice of `id` consumed although the queue had already been told about the id
-    (its own write -- redis / cloud+mq announce own writes --, a load entry or an earlier notice)."""
-    told = any(e[1] == 'store' and e[2] == 'write' and H.sid(e[5]) == id for e in lab.events)
+    """The queue was told about `id` more than once before `upto_seq` and at least one telling was
+    a wait() notice: its own write (redis / cloud+mq announce own writes back), a start-up load
+    entry and wait() notices all count, in any order."""
+    tellings = 1 if any(e[1] == 'store' and e[2] == 'write' and H.sid(e[5]) == id for e in lab.events) else 0
+    notices = 0
     for s in range(0, upto_seq):
         e = lab.events[s]
-        if e[1] == 'store' and e[2] == 'wait' and any(H.sid(i) == id for ts, i in e[3]):
-            if told:
-                return True
-            told = True
+        if e[1] == 'store' and e[2] == 'wait':
+            n = sum(1 for ts, i in e[3] if H.sid(i) == id)
+            tellings += n
+            notices += n
         elif e[1] == 'store' and e[2] == 'load_entry' and H.sid(e[3]) == id:
-            told = True
-    return False
+            tellings += 1
+    return notices >= 1 and tellings >= 2
